@@ -76,16 +76,18 @@ where
             self.max = view_last;
             self.last = view_last;
         }
+        let mut rescan = false;
         if self.q_vals.len() >= self.window_len {
-            let old = *self.q_vals.front().unwrap();
-            if old <= self.min || old >= self.max {
-                let (min, max) = extent_queue(&self.q_vals);
-                self.min = min;
-                self.max = max;
-            }
-            self.q_vals.pop_front();
+            let old = self.q_vals.pop_front().unwrap();
+            rescan = old <= self.min || old >= self.max;
         }
         self.q_vals.push_back(view_last);
+        if rescan {
+            // the evicted value was an extremum: recompute over what is in the window now
+            let (min, max) = extent_queue(&self.q_vals);
+            self.min = min;
+            self.max = max;
+        }
         if view_last > self.max {
             self.max = view_last;
         }
